@@ -873,6 +873,10 @@ impl Scenario for Roundtrip {
                 if owns(&prop, "C13/append-open-failed") {
                     return viol("C13/append-open-failed", detail);
                 }
+            } else if !m.chaos && !stale_any && i > 0 && matches!(c.ops[i - 1], Op::Finish) && out_f.steps[i - 1].res.is_ok() && owns(&prop, "C13/append-open-failed") {
+                // an earlier call of this lifetime was refused (the model is lenient about what the writer did next),
+                // but its finish() then reported success: what it vouched for must at least open again
+                return viol("C13/append-open-failed", format!("finish() at op {} reported success after an earlier refused call, yet new_append at op {i} cannot reopen the archive: {:?}", i - 1, out_f.steps[i].res));
             }
             return Verdict::Skip("append could not reopen the archive".into());
         }
